@@ -1,26 +1,22 @@
 package rules
 
 import (
+	"fmt"
 	"go/ast"
 	"go/token"
 	"go/types"
+	"sort"
+	"strings"
 
 	"lachk/core"
 )
 
-func init() {
-	extraExtensions = append(extraExtensions,
-		ext{"C05", c05ForkPairs},
-		ext{"C08", c08Roots},
-	)
-}
-
-type ext struct {
-	id string
-	fn func(*core.Ctx)
-}
-
-var extraExtensions []ext
+var _ = fmt.Sprint
+var _ ast.Node
+var _ token.Pos
+var _ types.Object
+var _ = sort.Strings
+var _ = strings.TrimSpace
 
 // c05ForkPairs: forks that no parent has seen are found by testing whether two branches of one
 // creator overlap in the event's merged view. The test has to range over every pair of the creator's
@@ -131,18 +127,4 @@ func c05ForkPairs(c *core.Ctx) {
 			c.Check(n == 2 && len(facts) == 2, "branches overlap iff each starts no later than the other ends", "T8 DecisionTable (normalised)", t.cond.Pos(), "MinSeq(a) <= Seq(b) && MinSeq(b) <= Seq(a)", "the overlap test is not the symmetric interval-overlap test")
 		}
 	})
-}
-
-// c08Roots: what a restarted instance replays are the roots it reads back from the epoch database.
-// Restart invisibility therefore needs the root registry to return exactly what was registered
-// (property C33): its obligations are shared here.
-func c08Roots(c *core.Ctx) {
-	r, ok := Registry["C33"]
-	if !ok {
-		c.Clause("C08.roots", func() { c.Undecided("C33 rules", "shared", 0, "the root-registry rules (C33) are not available") })
-		return
-	}
-	sub := core.NewCtx(c.P, c.Prop, c.Tier)
-	r.Run(sub)
-	c.Merge("C08.roots(shared with C33)/", sub)
 }
